@@ -258,7 +258,8 @@ def correspondence(ctx, d, binp, spec):
     if not fails and (d.items or soft) and spec.get("widen"):
         # something broke without a failing input: look harder before saying so
         ctx.log("no failing input yet for: %s — widened run" % "; ".join(d.names() + ["%d verdict-2 case(s)" % len(soft)] * bool(soft)))
-        w = run_and_judge(spec["widen"](4), ctx.seed + 7919, "_wide")
+        # quick: four times as many generated cases; thorough: as many again, another seed
+        w = run_and_judge(spec["widen"](4 if ctx.tier == "quick" else 1), ctx.seed + 7919, "_wide")
         if w is not None:
             wterms, wjsons, wbad, wnt = w
             widened = {"cases": len(wjsons), "seed": ctx.seed + 7919,
